@@ -62,6 +62,7 @@ type deriver struct {
 	importOrder []string
 	nerr        int
 	errEvent    map[int]int // error number -> index of the event that produced it
+	ifaces      map[int]ifaceVal
 }
 
 type varRec struct {
@@ -152,6 +153,28 @@ func tupleList(id string, vars []*interp.Opaque) *interp.Opaque {
 
 // ifaceOpaque builds the abstract *types.Interface of mock i.
 func (d *deriver) ifaceOpaque(i int) (*interp.Opaque, interp.Value) {
+	// the same interface requested twice is the same go/types object, with the same method and
+	// variable objects (a generator that caches by object identity must see that)
+	if d.model.Mocks[i].DupOfFirst {
+		i = 0
+	}
+	if c, ok := d.ifaces[i]; ok {
+		return c.iface, c.tparams
+	}
+	iface, tparams := d.ifaceOpaque1(i)
+	if d.ifaces == nil {
+		d.ifaces = map[int]ifaceVal{}
+	}
+	d.ifaces[i] = ifaceVal{iface, tparams}
+	return iface, tparams
+}
+
+type ifaceVal struct {
+	iface   *interp.Opaque
+	tparams interp.Value
+}
+
+func (d *deriver) ifaceOpaque1(i int) (*interp.Opaque, interp.Value) {
 	mi := d.model.Mocks[i]
 	var funcs []*interp.Opaque
 	for j, me := range mi.Methods {
@@ -588,7 +611,7 @@ func (d *deriver) run(formatter string) (*Derived, error) {
 		if err != nil {
 			return nil, &interp.ErrUndecided{Pos: pos, Msg: err.Error()}
 		}
-		s.Aux = map[string]interp.Value{"vr": vr}
+		s.Aux = map[string]interp.Value{"vr": vr, "rec": rec}
 		// the Var's type opaque must be owned by this Var for the qualifier check of TypeString
 		typ.ID = vr.ID + ".type"
 		return &interp.Ptr{Elem: s}, nil
